@@ -33,12 +33,13 @@ def parseOp (toks : List String) : Option FOp :=
   | ["size"] => some .size
   | _ => none
 
-/-- `case <hex data> <modes>`; modes is a string over {w,r}: one handle per letter -/
+/-- `case <hex data> <modes>`; modes is a string over {w,r,a}: one handle per letter -/
 def parseCase (toks : List String) : Option FileSt :=
   match toks with
   | ["case", d, modes] => do
     let d ← bytesOfHex d
-    pure { data := d, hs := modes.toList.map fun c => { readOnly := c == 'r' } }
+    -- ('a': a handle opened with O_APPEND — positioned at the end of the file, an ordinary handle otherwise)
+    pure { data := d, hs := modes.toList.map fun c => { readOnly := c == 'r', pos := if c == 'a' then (d.length : Int) else 0 } }
   | _ => none
 
 /-- `copyout h`: io.Copy(w, f) into a plain writer — Read until the end of the file; the final io.EOF is
